@@ -685,6 +685,22 @@ func RunCheck(opts CheckOpts) *CheckReport {
 		"two interface values of unknown content are equal iff their dynamic types and an unconstrained identity attribute agree; the dynamic type of interface-typed package variables, package-level constants and the contents of dispatch tables are read from the real package initialisers on every run",
 		"the uninterpreted big-endian value beval(s) of a byte slice is defined as sum(s[i] * 256^(len-1-i)); it is written out for constant lengths and, where a contract says `option bevalbound=N`, for symbolic lengths up to N",
 	}
+	var hs []string
+	for k := range cs.HeapObjs {
+		// only for a property that verifies functions of the declaring package
+		pkgOf := k[:strings.LastIndex(k, ".")]
+		for fk := range done {
+			if strings.Contains(fk, pkgOf+".") {
+				hs = append(hs, k)
+				break
+			}
+		}
+	}
+	if len(hs) > 0 {
+		sort.Strings(hs)
+		assumptions = append(assumptions, "read-only linked heap (heapobj: "+strings.Join(hs, ", ")+"): a pointer to such an object is a reference (0 = nil), its fields are state-independent functions of the reference; functions that store through such pointers, or call a contract that modifies memory, are rejected; pointers to modelled objects (parameters of other struct types) are assumed non-nil and unaliased; symbolic Go maps are non-nil")
+		assumptions = append(assumptions, "abstraction functions (absdef): inside the defining package the function means its definition over the object's fields (and the module's contracts are proved with it); clients that hold only a reference use it uninterpreted — sound while the object does not change between the client's calls (enforced by the read-only restriction above)")
+	}
 	for _, a := range keysOf(inl) {
 		assumptions = append(assumptions, "inlined at call sites (body executed, part of each caller's proof): "+a)
 	}
